@@ -204,6 +204,91 @@ def _month_region_rs(f: mirfront.MirFn, sf) -> set:
     return out
 
 
+_MB_OK = (ast.Expression, ast.Constant, ast.Name, ast.Load, ast.Attribute, ast.UnaryOp, ast.USub, ast.BinOp, ast.Add, ast.Sub, ast.Mult,
+          ast.Compare, ast.Eq, ast.NotEq, ast.Lt, ast.LtE, ast.Gt, ast.GtE, ast.Subscript, ast.Call)
+
+
+def _mb_compile(src: str):
+    """canonical summary text -> closed arithmetic function of (A, B, DAY, MONTH); only +, -, *, comparisons, table lookups
+    and is_leap() are admitted (the checker's evaluator - no pendulum code is run)"""
+    tree = ast.parse(src, mode="eval")
+    for n in ast.walk(tree):
+        if not isinstance(n, _MB_OK):
+            raise core.Unsupported(f"month branch: `{type(n).__name__}` in `{src[:60]}` is outside the evaluator")
+        if isinstance(n, ast.Call) and not (un(n.func) == "is_leap" and len(n.args) == 1):
+            raise core.Unsupported(f"month branch: call `{un(n)[:40]}` is outside the evaluator")
+        if isinstance(n, ast.Name) and n.id not in ("A", "B", "DAY", "MONTH", "DAYS_PER_MONTHS", "is_leap"):
+            raise core.Unsupported(f"month branch: free name `{n.id}`")
+    code = compile(tree, "<summary>", "eval")
+    return lambda env: eval(code, {"__builtins__": {}}, env)      # noqa: S307 - whitelisted arithmetic only
+
+
+def _month_tabulate(ctx, region: set, who: str, site: str) -> None:
+    """'added back to a give exactly b', month/day part, decided by tabulation over the whole finite domain.
+    Inputs of the branch: a = d1.day, b = d2.day, d2's month and year, and the borrow beta taken from the time of day
+    (DAY = b - a - beta < 0 on entry).  add() lands on day min(a, len(X)) of the month X reached by the reported months,
+    then adds DAY' days and the time difference (which carries beta days).  So with the month kept (MONTH unchanged)
+    min(a, len(d2's month)) + DAY' + beta must equal b, and with one month borrowed (MONTH - 1)
+    min(a, len(previous month)) + DAY' + beta must equal len(previous month) + b; 0 <= DAY' <= 30 either way."""
+    dpm = core.const("constants", "DAYS_PER_MONTHS")
+    paths = []
+    try:
+        for conds, d, mo in region:
+            paths.append(([(_mb_compile(c), pol) for c, pol in conds], _mb_compile(d), _mb_compile(mo)))
+    except (core.Unsupported, SyntaxError) as e:
+        ctx.unverified("MONTHBRANCH.rebuild", f"{who}:precise_diff/day<0", str(e), site)
+        return
+    n = bad = 0
+    first = None
+    undecided = 0
+    from types import SimpleNamespace as NS
+    greg = lambda y: int(y % 4 == 0 and (y % 100 != 0 or y % 400 == 0))      # noqa: E731 - the rule FORMULA/SIBLING.is_leap establish
+    try:
+        for year in (2023, 2024, 2025):          # (leap(y), leap(y-1)) = (0,0), (1,0), (0,1)
+            for month in range(1, 13):
+                leap = int(year % 4 == 0 and (year % 100 != 0 or year % 400 == 0))
+                dim = dpm[leap][month]
+                py, pm = (year - 1, 12) if month == 1 else (year, month - 1)
+                dilm = dpm[int(py % 4 == 0 and (py % 100 != 0 or py % 400 == 0))][pm]
+                for b in range(1, dim + 1):
+                    for a in range(1, 32):
+                        for beta in (0, 1):
+                            day = b - a - beta
+                            if day >= 0:
+                                continue
+                            env = {"A": NS(day=a), "B": NS(day=b, month=month, year=year), "DAY": day, "MONTH": 0, "DAYS_PER_MONTHS": dpm,
+                                   "is_leap": greg}
+                            live = [p for p in paths if all(bool(c(env)) == pol for c, pol in p[0])]
+                            n += 1
+                            if len(live) != 1:
+                                undecided += 1
+                                continue
+                            dd, mm = live[0][1](env), live[0][2](env)
+                            if mm == 0:
+                                ok = min(a, dim) + dd + beta == b
+                            elif mm == -1:
+                                ok = min(a, dilm) + dd + beta == dilm + b
+                            else:
+                                ok = False
+                            ok = ok and 0 <= dd <= 30
+                            if not ok:
+                                bad += 1
+                                if first is None:
+                                    first = (f"start day {a}, end {year}-{month:02d}-{b:02d}, end time of day "
+                                             f"{'earlier' if beta else 'not earlier'} than the start's: reported month change {mm}, days {dd}")
+    except (core.Unsupported, KeyError, IndexError, SyntaxError, AttributeError, NameError, TypeError) as e:
+        ctx.unverified("MONTHBRANCH.rebuild", f"{who}:precise_diff/day<0", str(e), site)
+        return
+    ctx.count(f"month_branch_tuples_{who}", n)
+    if undecided:
+        ctx.unverified("MONTHBRANCH.rebuild", f"{who}:precise_diff/day<0", f"{undecided} of {n} input tuples select no or several paths", site)
+        return
+    ctx.ob("MONTHBRANCH.rebuild", f"{who}:precise_diff/day<0", bad == 0,
+           f"tabulated all {n} (start day, end date, time borrow) tuples entering the month-borrow branch with the checker's evaluator: "
+           + (f"{bad} of them report months/days that do not lead back to the end point, e.g. {first}" if bad else
+              "every one leads back to the end point with 0..30 days"), site)
+
+
 def _rs_outputs(ctx, f: mirfront.MirFn) -> None:
     names = f.names()
     sign = f.local("sign")
@@ -709,6 +794,8 @@ def run(ctx) -> None:
     except core.Unsupported as e:
         py_region = None
         ctx.unverified("MONTHBRANCH", "py:precise_diff", str(e), hm.loc(fn))
+    if py_region is not None:
+        _month_tabulate(ctx, py_region, "py", hm.rel)
     mir = None
     try:
         mir = mirfront.load()
@@ -727,6 +814,7 @@ def run(ctx) -> None:
         if py_region is not None:
             try:
                 rs_region = _month_region_rs(f, sf)
+                _month_tabulate(ctx, rs_region, "rs", "rust/src/python/helpers.rs")
                 only_py, only_rs = py_region - rs_region, rs_region - py_region
                 ctx.count("month_branch_paths_py", len(py_region))
                 ctx.count("month_branch_paths_rs", len(rs_region))
